@@ -310,6 +310,7 @@ var misuseKinds = []string{
 	"respond without peer", "confirm without peer", "peer on another curve",
 	"own uid 8192", "peer uid 8192", "late peer uid 8192", "own uid 65536", "peer uid 8200",
 	"ecdh uid 8192", "ecdh peer uid 8192", "ecdh SM2ZA uid 8192", "ecdh SM2ZA uid 8191",
+	"zero-length uid flavours mean the default id", "sm2.CalculateZA does not substitute the default",
 	"ecdh private key out of range", "ecdh private key wrong length", "sm2 private key out of range",
 }
 
@@ -486,6 +487,55 @@ func checkMisuse(c misuseCase, r *h.Rec) error {
 		}
 		if err != nil || !bytes.Equal(z, ref.SM2ZA(long(n), B.P)) {
 			return fmt.Errorf("SM2ZA(8191-byte uid) = %x, %v", z, err)
+		}
+		return nil
+	case "zero-length uid flavours mean the default id":
+		// nil, []byte{} and buf[:0] in every uid parameter of both packages
+		exp := refOneSided(newParty(b32(A.d), b32(A.r), uidSpec{}), B.P, B.R, nil, false, 24)
+		s, _ := curveEC.NewPrivateKey(b32(A.d))
+		e, _ := curveEC.NewPrivateKey(b32(A.r))
+		pP, _ := curveEC.NewPublicKey(enc(B.P))
+		pR, _ := curveEC.NewPublicKey(enc(B.R))
+		zDefault := ref.SM2ZA(ref.DefaultUID, B.P)
+		for fu := 0; fu < 3; fu++ {
+			z, err := pP.SM2ZA(newSM3(), uidSpec{Empty: fu}.bytes())
+			if err != nil || !bytes.Equal(z, zDefault) {
+				return fmt.Errorf("ecdh SM2ZA(zero-length uid, flavour %d) = %x, %v; Z of the default id is %x", fu, z, err, zDefault)
+			}
+			for fp := 0; fp < 3; fp++ {
+				uid, puid := uidSpec{Empty: fu}, uidSpec{Empty: fp}
+				uv, err := s.SM2MQV(e, pP, pR)
+				if err != nil {
+					return fmt.Errorf("SM2MQV: %v", err)
+				}
+				key, err := uv.SM2SharedKey(false, 24, s.PublicKey(), pP, uid.bytes(), puid.bytes())
+				if err != nil || !bytes.Equal(key, exp.key) {
+					return fmt.Errorf("ecdh SM2SharedKey(uid flavour %d, remoteUID flavour %d) = %x, %v; with the default ids the key is %x", fu, fp, key, err, exp.key)
+				}
+				for _, late := range []bool{false, true} {
+					ke, err := newExchange(privA, B.P, uid.bytes(), puid.bytes(), 24, true, late)
+					if err != nil {
+						return fmt.Errorf("NewKeyExchange(uid flavour %d, peerUID flavour %d, late=%v): %v", fu, fp, late, err)
+					}
+					if _, err := ke.InitKeyExchange(sm2Rand(b32(A.r), 0)); err != nil {
+						return fmt.Errorf("InitKeyExchange: %v", err)
+					}
+					k2, sA, err := ke.ConfirmResponder(libPub(B.R), cp(exp.s1))
+					if err != nil || !bytes.Equal(k2, exp.key) || !bytes.Equal(sA, exp.s2) {
+						return fmt.Errorf("sm2.KeyExchange(uid flavour %d, peerUID flavour %d, late=%v): key=%x sA=%x err=%v; with the default ids %x %x", fu, fp, late, k2, sA, err, exp.key, exp.s2)
+					}
+				}
+			}
+		}
+		return nil
+	case "sm2.CalculateZA does not substitute the default":
+		// documented: "This function will NOT use default UID even the uid argument is empty"
+		want := ref.SM2ZA(nil, B.P) // ENTL = 0
+		for f := 0; f < 3; f++ {
+			z, err := sm2.CalculateZA(libPub(B.P), uidSpec{Empty: f}.bytes())
+			if err != nil || !bytes.Equal(z, want) {
+				return fmt.Errorf("sm2.CalculateZA(zero-length uid, flavour %d) = %x, %v; Z with ENTL=0 is %x", f, z, err, want)
+			}
 		}
 		return nil
 	case "ecdh private key out of range":
